@@ -72,6 +72,13 @@ def cases(tier, rng):
             out.append(("varlen-len-%d" % n if n in LENGTHS else "varlen-len-other", ("varlen " + s).strip()))
             out.append(("padabs-recorder", ("padabs " + s).strip()))
             out.append(("padabs-tip5", ("padabs_tip5 " + s).strip()))
+    # long inputs: beyond any plausible internal cutoff (a block-wise or buffered fast path that only starts at a few hundred
+    # or a thousand elements), at and around multiples of the rate
+    for n in (255, 256, 257, 1000, 1023, 1024, 1030, 4099):
+        for c in ([rng.randrange(P) for _ in range(n)], [P - 1] * (n - 1) + [1]):
+            s = " ".join(map(str, c))
+            out.append(("varlen-long", "varlen " + s))
+            out.append(("varlen-long", "padabs_tip5 " + s))
     # padding injectivity families: x, x++[0], x++[1], x++[1,0], ... must all be absorbed differently
     for n in (0, 1, 8, 9, 10, 18, 19):
         x = [rng.randrange(2, P) for _ in range(n)]
@@ -126,6 +133,10 @@ def cases(tier, rng):
             out.append(("bounds-counts", sponge_case(rand_state(rng), [("I", ub, n)])))
     for n in counts:
         out.append(("bounds-counts", sponge_case(rand_state(rng), [("I", 2**31, n), ("I", 1, n)])))
+    # ---- large counts (a chunked or buffered sampling path that only starts at a few hundred elements)
+    for n in (100, 255, 256, 257, 1000):
+        out.append(("large-counts", sponge_case(rand_state(rng), [("I", 2**20, n), ("S",)])))
+        out.append(("large-counts", sponge_case(rand_state(rng), [("X", n), ("S",)])))
     # ---- scalars
     for n in (0, 1, 3, 4, 10, 2, 6, 7, 33):
         out.append(("scalars", sponge_case(rand_state(rng), [("X", n)])))
